@@ -27,8 +27,10 @@ impl<const T: JoinType> MergeJoinExecutor<T> {
 
         loop {
             match (&left_group, &right_group) {
-                // cross join if left key == right key
-                (Some((lkey, lchunk)), Some((rkey, rchunk))) if lkey == rkey => {
+                // cross join if left key == right key (a key containing NULL never matches)
+                (Some((lkey, lchunk)), Some((rkey, rchunk)))
+                    if lkey == rkey && !lkey.iter().any(|k| k.is_null()) =>
+                {
                     for left_row in lchunk {
                         for right_row in rchunk {
                             let values = left_row.iter().chain(right_row.iter()).cloned();
@@ -40,9 +42,9 @@ impl<const T: JoinType> MergeJoinExecutor<T> {
                     left_group = left_groups.next().await.transpose()?;
                     right_group = right_groups.next().await.transpose()?;
                 }
-                // left join if left key < right key or right is finished
+                // left join if left key < right key (or equal keys containing NULL) or right is finished
                 (Some((lkey, lchunk)), _)
-                    if right_group.as_ref().is_none_or(|(rkey, _)| lkey < rkey) =>
+                    if right_group.as_ref().is_none_or(|(rkey, _)| lkey <= rkey) =>
                 {
                     if T == JoinType::LeftOuter || T == JoinType::FullOuter {
                         for left_row in lchunk {
